@@ -26,13 +26,12 @@ echo "   build=$rc_build suite=$rc_suite demo_without=$rc_clean demo_with=$rc_mu
 if [ $rc_build -ne 0 ] || [ $rc_suite -ne 0 ] || [ $rc_clean -ne 0 ] || [ $rc_mut -eq 0 ]; then echo "   NOT CONFIRMED"; exit 3; fi
 # store
 mkdir -p /verif/seeded/$sid && cp $d/patch.diff $d/meta.json $d/demo.md $demo /verif/seeded/$sid/ 2>/dev/null
-git -C /repo apply $d/patch.diff || { echo "patch does not apply to /repo"; exit 2; }
+# the checks run in a private universe (tools/uni.sh): /repo itself is never modified
 cd /verif
 res=""
 for p in "$@"; do
-  out=$(./check $p 2>&1 | grep -E "VIOLATION|ok tier|FAIL tier" | tr '\n' ' ')
+  out=$(tools/uni.sh $d/patch.diff $p 2>&1 | grep -E "VIOLATION|ok tier|FAIL tier|does not apply" | tr '\n' ' ')
   echo "   $p: $out" | cut -c1-300
   res="$res $p:$(echo "$out" | grep -q VIOLATION && echo caught || echo missed)"
 done
-git -C /repo checkout -q -- .
 echo "   RESULT $sid $res"
